@@ -557,6 +557,20 @@ func magicTampers(cw *c29World, base *block.Block) []tamper {
 	return ts
 }
 
+// recvClaiming serialises a tampered block that keeps claiming the genuine block's hash and signature and decodes it the way a
+// receiving node does (nil when it does not decode or the claim cannot be kept).
+func recvClaiming(tampered, genuine *block.Block) *block.Block {
+	c := tampered.Clone()
+	c.Txns = tampered.Txns
+	c.Hash = genuine.Hash
+	c.Signature = genuine.Signature
+	rc, err := recvBlock(blockJSON(c))
+	if err != nil || rc.Hash != genuine.Hash || rc.Signature != genuine.Signature {
+		return nil
+	}
+	return rc
+}
+
 // judgeTamper applies one tamper to a fresh received copy and reports how (if at all) the real code notices.
 func judgeTamper(run *mon.Run, base *block.Block, js []byte, t tamper, bi int) {
 	ctx := context.Background()
@@ -575,6 +589,20 @@ func judgeTamper(run *mon.Run, base *block.Block, js []byte, t tamper, bi int) {
 	route := ""
 	if hashChanged {
 		route = "block-hash"
+		// "A received block whose hash ... does not match ... is rejected": the tampered block arrives over the wire still claiming
+		// the genuine hash and signature (the genuine block has been validated by this node just before); the real receive path
+		// (decode, ComputeProperties, Block.Validate) has to refuse it
+		claimed := recvClaiming(clone, base)
+		if claimed != nil {
+			run.Count("c29.receive_path_checked", 1)
+			if verr := claimed.Validate(ctx); verr == nil {
+				violate(run, "C29:receive-path-accepts-hash-mismatch",
+					fmt.Sprintf("block %s (round %d, %d txns): tamper %s/%s variant %s changes the recomputed hash, but a received copy that still claims hash %s and the genuine signature passes Block.Validate", base.Hash[:12], base.Round, len(base.Txns), t.class, t.field, t.variant, base.Hash[:16]),
+					map[string]interface{}{"seed": mon.Seed(), "block_index": bi, "tamper": t.class + "/" + t.field + "/" + t.variant, "block_json": string(js)})
+			} else {
+				run.Count("c29.receive_path_rejected."+errCode(verr), 1)
+			}
+		}
 	} else {
 		// the tampered bytes arrive over the wire: decode + ComputeProperties, then the receive-path checks
 		rc, derr := recvBlock(blockJSON(clone))
